@@ -908,6 +908,11 @@ package uhppote
 // what one discovery entry says about the datagram it was decoded from (serial number, firmware version, date);
 // discAt(k): the k-th get-device reply among the datagrams of this call, in arrival order
 //@ macro discEnt(m, b) = m.SerialNumber == wire.u32(b, 4) && m.Version == 256 * b[26] + b[27] && wire.rdate(b, 28, m.Date.abs, m.Date.ns, m.Date.loc)
+//@ macro discIP(m, b) = allocated(m.IpAddress) && len(m.IpAddress) == 16 && m.IpAddress[12] == b[8] && m.IpAddress[13] == b[9] && m.IpAddress[14] == b[10] && m.IpAddress[15] == b[11]
+//@ macro discMask(m, b) = allocated(m.SubnetMask) && len(m.SubnetMask) == 16 && m.SubnetMask[12] == b[12] && m.SubnetMask[13] == b[13] && m.SubnetMask[14] == b[14] && m.SubnetMask[15] == b[15]
+//@ macro discGw(m, b) = allocated(m.Gateway) && len(m.Gateway) == 16 && m.Gateway[12] == b[16] && m.Gateway[13] == b[17] && m.Gateway[14] == b[18] && m.Gateway[15] == b[19]
+//@ macro discMAC(m, b) = allocated(m.MacAddress) && len(m.MacAddress) == 6 && m.MacAddress[0] == b[20] && m.MacAddress[1] == b[21] && m.MacAddress[2] == b[22] && m.MacAddress[3] == b[23] && m.MacAddress[4] == b[24] && m.MacAddress[5] == b[25]
+//@ macro discSame(c, m) = c.IpAddress == m.IpAddress && c.SubnetMask == m.SubnetMask && c.Gateway == m.Gateway && c.MacAddress == m.MacAddress
 //@ macro discAt(k) = recv.bytes[old(recv.n) + disc.sel(recv.bytes, recv.len, old(recv.n), k)]
 
 // broadcast: executed in place in GetDevices (generic over `any`); its filter loop keeps only decodable
@@ -924,6 +929,10 @@ package uhppote
 //@     invariant log:   forall p int :: old(recv.n) <= p && p < old(recv.n) + len(responses) ==> recv.len[p] == len(responses[p - old(recv.n)]) && recv.bytes[p] == row(responses[p - old(recv.n)])
 //@     invariant ent:   forall k int :: 0 <= k && k < len(replies) ==> discEnt(unbox("messages.GetDeviceResponse", replies[k]), discAt(k))
 //@     invariant kind:  forall k int :: 0 <= k && k < len(replies) ==> dyntype(replies[k]) == dyntype(reply)
+//@     invariant entip: forall k int :: 0 <= k && k < len(replies) ==> discIP(unbox("messages.GetDeviceResponse", replies[k]), discAt(k))
+//@     invariant entmask: forall k int :: 0 <= k && k < len(replies) ==> discMask(unbox("messages.GetDeviceResponse", replies[k]), discAt(k))
+//@     invariant entgw: forall k int :: 0 <= k && k < len(replies) ==> discGw(unbox("messages.GetDeviceResponse", replies[k]), discAt(k))
+//@     invariant entmac: forall k int :: 0 <= k && k < len(replies) ==> discMAC(unbox("messages.GetDeviceResponse", replies[k]), discAt(k))
 //@     invariant own:   fresh(replies)
 
 //@ func (*uhppote).GetDevices
@@ -944,6 +953,10 @@ package uhppote
 //@   ensures count:   err == nil ==> len(res) <= recv.n - old(recv.n)
 //@   ensures exact:   err == nil ==> len(res) == disc.count(recv.bytes, recv.len, old(recv.n), recv.n - old(recv.n))
 //@   ensures entries: err == nil ==> (forall k int :: 0 <= k && k < len(res) ==> discEnt(res[k], discAt(k)))
+//@   ensures ip:      err == nil ==> (forall k int :: 0 <= k && k < len(res) ==> discIP(res[k], discAt(k)))
+//@   ensures mask:    err == nil ==> (forall k int :: 0 <= k && k < len(res) ==> discMask(res[k], discAt(k)))
+//@   ensures gateway: err == nil ==> (forall k int :: 0 <= k && k < len(res) ==> discGw(res[k], discAt(k)))
+//@   ensures mac:     err == nil ==> (forall k int :: 0 <= k && k < len(res) ==> discMAC(res[k], discAt(k)))
 //@   define P = (u.broadcastAddr.AddrPort.ip.kind != 0 ? u.broadcastAddr.AddrPort.port : 60000)
 //@   ensures ports:   err == nil ==> (forall k int :: 0 <= k && k < len(res) ==> (res[k].Address.ip.kind == 0 || res[k].Address.port == P))
 //@   ensures names:   err == nil ==> (forall k int :: 0 <= k && k < len(res) ==> res[k].Name == (has(u.devices, res[k].SerialNumber) ? u.devices[res[k].SerialNumber].Name : ""))
@@ -953,6 +966,11 @@ package uhppote
 //@     invariant exact: len(replies) == disc.count(recv.bytes, recv.len, old(recv.n), recv.n - old(recv.n))
 //@     invariant ent:   forall k int :: 0 <= k && k < len(replies) ==> discEnt(unbox("messages.GetDeviceResponse", replies[k]), discAt(k))
 //@     invariant mapped: forall k int :: 0 <= k && k < len(controllers) ==> discEnt(controllers[k], discAt(k))
+//@     invariant entip: forall k int :: 0 <= k && k < len(replies) ==> discIP(unbox("messages.GetDeviceResponse", replies[k]), discAt(k))
+//@     invariant entmask: forall k int :: 0 <= k && k < len(replies) ==> discMask(unbox("messages.GetDeviceResponse", replies[k]), discAt(k))
+//@     invariant entgw: forall k int :: 0 <= k && k < len(replies) ==> discGw(unbox("messages.GetDeviceResponse", replies[k]), discAt(k))
+//@     invariant entmac: forall k int :: 0 <= k && k < len(replies) ==> discMAC(unbox("messages.GetDeviceResponse", replies[k]), discAt(k))
+//@     invariant same: forall k int :: 0 <= k && k < len(controllers) ==> discSame(controllers[k], unbox("messages.GetDeviceResponse", replies[k]))
 //@     invariant own:   fresh(controllers)
 //@     invariant kind:  forall k int :: 0 <= k && k < len(replies) ==> dyntype(replies[k]) == typeid("messages.GetDeviceResponse")
 //@     invariant ports: forall k int :: 0 <= k && k < len(controllers) ==> (controllers[k].Address.ip.kind == 0 || controllers[k].Address.port == P)
